@@ -297,10 +297,116 @@ pub fn scenarios(tier: Tier) -> Vec<Scenario> {
     v
 }
 
+
+// ---- blocking-conformance probes ---------------------------------------------------------------------------------
+// The schedule exploration models `send` / `send_timeout` as operations that WAIT for queue space
+// (their `wait_until` hooks keep the thread disabled while the queue is full). That modelling
+// assumption is checked against the real code here, free-running (no scheduler) with a gated writer:
+// if the code gives up instead of waiting, accepted lines are lost / left unwritten.
+
+struct GateWriter {
+    entered: Arc<AtomicBool>,
+    open: Arc<(Mutex<bool>, std::sync::Condvar)>,
+    out: Arc<Mutex<Vec<String>>>,
+    flushed: Arc<AtomicUsize>,
+}
+impl Write for GateWriter {
+    fn write(&mut self, buf: &[u8]) -> std::io::Result<usize> {
+        self.entered.store(true, Ordering::SeqCst);
+        let (m, c) = &*self.open;
+        let mut g = m.lock().unwrap();
+        while !*g {
+            g = c.wait(g).unwrap();
+        }
+        drop(g);
+        self.out.lock().unwrap().push(String::from_utf8_lossy(buf).into_owned());
+        Ok(buf.len())
+    }
+    fn flush(&mut self) -> std::io::Result<()> {
+        self.flushed.store(self.out.lock().unwrap().len(), Ordering::SeqCst);
+        Ok(())
+    }
+}
+
+pub fn run_probe(job: &[u8]) -> Vec<u8> {
+    let which = job.first().copied().unwrap_or(0);
+    let mut bad: Vec<String> = vec![];
+    let entered = Arc::new(AtomicBool::new(false));
+    let open = Arc::new((Mutex::new(false), std::sync::Condvar::new()));
+    let out = Arc::new(Mutex::new(vec![]));
+    let flushed = Arc::new(AtomicUsize::new(0));
+    let w = GateWriter { entered: entered.clone(), open: open.clone(), out: out.clone(), flushed: flushed.clone() };
+    let (mut nb, guard) = NonBlockingBuilder::default().buffered_lines_limit(1).lossy(which == 0).finish(w);
+    let _ = nb.write_all(b"l1\n");
+    let t0 = Instant::now();
+    while !entered.load(Ordering::SeqCst) && t0.elapsed() < Duration::from_secs(5) {
+        std::thread::sleep(Duration::from_millis(1));
+    }
+    let _ = nb.write_all(b"l2\n"); // the queue (capacity 1) is full now; the worker sits in the writer
+    let open_gate = move |after: Duration| {
+        let open = open.clone();
+        std::thread::spawn(move || {
+            std::thread::sleep(after);
+            let (m, c) = &*open;
+            *m.lock().unwrap() = true;
+            c.notify_all();
+        })
+    };
+    if which == 0 {
+        // guard dropped while the queue is full; the writer resumes 20 ms later
+        drop(nb);
+        let h = open_gate(Duration::from_millis(20));
+        let t = Instant::now();
+        drop(guard);
+        let took = t.elapsed();
+        let written = out.lock().unwrap().clone();
+        let fl = flushed.load(Ordering::SeqCst);
+        // (a drop that waited its full 100 ms and then gave up is the documented time-out, not judged)
+        if (written != ["l1\n", "l2\n"] || fl != 2) && took < Duration::from_millis(60) {
+            bad.push(format!("the queue was full when the guard was dropped and the writer resumed 20 ms later: drop returned after {:?} without waiting for queue space; written {:?}, flushed {} of the 2 accepted lines", took, written, fl));
+        }
+        let _ = h.join();
+    } else {
+        // non-lossy: a third line must wait for space, not be dropped
+        let started = Arc::new(AtomicBool::new(false));
+        let (s2, mut nb2) = (started.clone(), nb.clone());
+        let t = std::thread::spawn(move || {
+            s2.store(true, Ordering::SeqCst);
+            let _ = nb2.write_all(b"l3\n");
+        });
+        while !started.load(Ordering::SeqCst) {
+            std::thread::sleep(Duration::from_millis(1));
+        }
+        let h = open_gate(Duration::from_millis(50));
+        let _ = t.join();
+        let _ = h.join();
+        drop(nb);
+        drop(guard);
+        let written = out.lock().unwrap().clone();
+        if written != ["l1\n", "l2\n", "l3\n"] {
+            bad.push(format!("non-lossy writer with a full queue: the third line did not wait for space; written {:?}", written));
+        }
+    }
+    serde_json::to_vec(&bad).unwrap()
+}
+
 pub fn run(args: &Args) -> i32 {
     let mut rep = Report::new(args, "model_checking");
     if let Some(p) = &args.replay {
         let v: serde_json::Value = serde_json::from_str(&std::fs::read_to_string(p).expect("read replay")).expect("json");
+        if let Some(w) = v["case"].get("probe").and_then(|x| x.as_u64()) {
+            let bad: Vec<String> = match mc::pool::run_isolated(run_probe, &[w as u8], Duration::from_secs(20)) {
+                Outcome::Ok(b) => serde_json::from_slice(&b).unwrap_or_default(),
+                o => vec![format!("probe did not finish: {:?}", o)],
+            };
+            for x in &bad {
+                println!("VIOLATION property={} replay={} :: {}", args.property, p, x);
+            }
+            if bad.is_empty() {
+                println!("replay: no violation");
+            }
+            return i32::from(!bad.is_empty());
+        }
         let mut job: SJob = serde_json::from_value(v["case"].clone()).unwrap();
         job.record_steps = true;
         let bad = match mc::pool::run_isolated(run_schedule, &serde_json::to_vec(&job).unwrap(), Duration::from_secs(30)) {
@@ -323,6 +429,17 @@ pub fn run(args: &Args) -> i32 {
         }
         return i32::from(!bad.is_empty());
     }
+    for which in [0u8, 1] {
+        match mc::pool::run_isolated(run_probe, &[which], Duration::from_secs(20)) {
+            Outcome::Ok(b) => {
+                for m in serde_json::from_slice::<Vec<String>>(&b).unwrap_or_default() {
+                    rep.violation(format!("[blocking-conformance probe {}] {}", which, m), json!({"probe": which}));
+                }
+            }
+            o => rep.violation(format!("[blocking-conformance probe {}] the probe did not finish: {:?} (a send that must wait for queue space hangs or crashes)", which, o), json!({"probe": which})),
+        }
+    }
+    rep.cov("blocking_conformance_probes", 2u64);
     let f9_open = rep.is_open("F9");
     let mut pool = Pool::new(mc::pool::default_workers(), run_schedule, true, Duration::from_secs(30));
     let bound = std::env::var("VERIF_BOUND").ok().and_then(|s| s.parse().ok()).unwrap_or(args.tier.pick(2, 3));
